@@ -301,6 +301,7 @@ func runC10(r *core.Run) {
 		s.Transitions.Store(s.Evals.Load())
 		s.Done()
 	}
+	runC10Channels(r)
 	nb := newC10Pool("all+attr+autoid+align=attr")
 	nbhdSub(r, "nbhd-spec/all+attr+autoid+align=attr", core.MustCfg("all+attr+autoid+align=attr"), func(s *core.Sub, cv *core.Conv, w []byte) {
 		c10Case(s, nb.get(cv), w)
@@ -309,6 +310,74 @@ func runC10(r *core.Run) {
 	nestSub(r, "nesting/all+attr+autoid+align=attr", core.MustCfg("all+attr+autoid+align=attr"), core.Pick(r, 3, 4), func(s *core.Sub, cv *core.Conv, w []byte) {
 		c10Case(s, nn.get(cv), w)
 	})
+}
+
+// runC10Channels: the three switches must mean the same however they are handed to the library. For every subset of
+// {Unsafe, XHTML, HardWraps} (× AutoHeadingID+Attribute on/off) the instance built through each alternative channel of
+// core.Channels must produce the bytes of the standard channel; the standard channel's output is what the other
+// sub-checks relate to the option-less output, so the rewrite clauses carry over to every channel.
+func runC10Channels(r *core.Run) {
+	type variant struct {
+		cfg core.Cfg
+		chs []int
+	}
+	var vs []variant
+	for _, ext := range []string{"core", "all+align=attr"} {
+		for m := 0; m < 16; m++ {
+			c := core.MustCfg(ext)
+			c.Unsafe, c.XHTML, c.HardWraps = m&1 != 0, m&2 != 0, m&4 != 0
+			c.AutoID, c.Attr = m&8 != 0, m&8 != 0
+			chs := []int{2, 3}
+			if ext == "core" {
+				chs = []int{1, 2, 3}
+			}
+			vs = append(vs, variant{c, chs})
+		}
+	}
+	var docs [][]byte
+	core.ForEachWord(core.Union(core.ABlock, []string{"<b>", "[a](javascript:x)", "![a](b)", "<http://a.b>", "&amp;", "- [ ] ", "|a|\n|-|\n", "{#i}"}), core.Pick(r, 3, 4), 1, func(int) func([]byte) {
+		return func(w []byte) { docs = append(docs, append([]byte{}, w...)) }
+	}, nil)
+	NestDocs(2, func(d []byte) { docs = append(docs, append([]byte{}, d...)) })
+	for _, e := range Seeds(r) {
+		docs = append(docs, []byte(e.Markdown))
+	}
+	s := r.Sub("option-channels", fmt.Sprintf("%d option combinations ({core, all} × subsets of {Unsafe, XHTML, HardWraps} × {–, AutoHeadingID+Attribute}) × alternative registration channels %q × %d documents (block words, nesting documents, spec examples and the repository's test-case sources): bytes equal to the standard channel (goldmark.WithRendererOptions / WithParserOptions)", len(vs), core.Channels[1:], len(docs)))
+	s.Bound = fmt.Sprintf("%d configurations × ≤3 channels × %d documents", len(vs), len(docs))
+	complete := core.ForEachIndex(len(vs), core.Workers(), func(w int) func(int) {
+		var ref []byte
+		return func(i int) {
+			v := vs[i]
+			std := &core.Conv{Cfg: v.cfg, MD: v.cfg.NewVia(0)}
+			var alts []*core.Conv
+			for _, ch := range v.chs {
+				alts = append(alts, &core.Conv{Cfg: v.cfg, MD: v.cfg.NewVia(ch)})
+			}
+			for _, d := range docs {
+				out, ok := mustConvert(s, std, d)
+				if !ok {
+					continue
+				}
+				ref = append(ref[:0], out...)
+				for k, a := range alts {
+					got, ok := mustConvert(s, a, d)
+					s.Evals.Add(1)
+					if ok && !bytes.Equal(got, ref) {
+						s.Violate("option-channel-changes-output:"+core.Channels[v.chs[k]], v.cfg.String(), d, nil,
+							fmt.Sprintf("the same options handed over through the %s channel give different bytes than through goldmark.WithParserOptions/WithRendererOptions", core.Channels[v.chs[k]]), string(ref), string(got))
+					}
+				}
+				s.Distinct(core.Hash(ref))
+			}
+			s.AddSample(v.cfg.String())
+		}
+	}, r.Expired)
+	if !complete {
+		s.Incomplete("internal deadline reached")
+	}
+	s.States.Store(int64(len(vs) * len(docs)))
+	s.Transitions.Store(s.Evals.Load())
+	s.Done()
 }
 
 type c10Pool struct {
